@@ -319,6 +319,18 @@ static inline void gen_model(rng_t *r, const shape_t *s, size_t n, int want_empt
 	}
 	model_sort(m);
 	model_dedupe(m);
+	/* the smallest entry the format can hold (empty key, empty value: three header bytes), in half of those also alone in its block
+	   because the entry after it does not fit beside it */
+	if (m->n && m->e[0].k.n == 0 && rndp(r, 500)) {
+		bs_free(&m->e[0].v); m->e[0].v = bs_dup((const uint8_t *)"", 0);
+		STAT("gen.empty_key_with_empty_value");
+		if (m->n >= 2 && s->block_size <= 8192 && rndp(r, 500)) {
+			size_t lv = s->block_size + rndn(r, 64);
+			bs_free(&m->e[1].v); m->e[1].v.p = xmalloc(lv); m->e[1].v.n = lv;
+			for (size_t i = 0; i < lv; i++) m->e[1].v.p[i] = (uint8_t)(i * 11);
+			STAT("gen.three_byte_entry_alone_in_its_block");
+		}
+	}
 }
 static inline size_t gen_count(rng_t *r, int thorough)
 {
